@@ -6,6 +6,7 @@ package main
 
 import (
 	"fmt"
+	"sync"
 	"go/token"
 	"go/types"
 	"os"
@@ -67,6 +68,7 @@ type Unit struct {
 	axiomsDone bool
 	finalActive map[string]bool
 	shapes  []shapeRec
+	mu      sync.Mutex
 }
 
 type shapeRec struct {
@@ -81,6 +83,7 @@ type reachCheck struct {
 }
 
 type retPoint struct {
+	blk  *ssa.BasicBlock
 	pc   Term
 	st   *State
 	vals []Value
